@@ -553,3 +553,90 @@ def r8(R):
     R.require(seen[0] or vs, '_finish_finish no longer updates the index')
     for v in vs:
         R.violation(v.node, v.message, g, v.path)
+
+
+# ------------------------------------------------------------------ C09.R9
+@rule('C09.R9', 'an attribute that caches a bound method of another '
+      'attribute\'s value (self._index_get = index.get next to '
+      'self._index = index) is re-bound wherever that attribute is replaced',
+      props=['C03', 'C04', 'C20'], min_instances=1)
+def r9(R):
+    n = 0
+    for cls in R.prog.all_classes():
+        if not cls.module.name.startswith('ZODB.') or \
+                '.tests' in cls.module.name:
+            continue
+        # (holder attribute, caching attribute, method name) pairs, found
+        # where both are bound from one value in one function
+        pairs = {}
+        stores = {}       # attr -> [(function, ast stmt)]
+        for f in cls.methods.values():
+            local_stores = {}
+            for s in walk_local(f.node):
+                if not isinstance(s, (ast.Assign, ast.AugAssign,
+                                      ast.AnnAssign)):
+                    continue
+                tgts = s.targets if isinstance(s, ast.Assign) else [s.target]
+                flat = []
+                for t in tgts:
+                    flat.extend(t.elts if isinstance(
+                        t, (ast.Tuple, ast.List)) else [t])
+                for t in flat:
+                    if isinstance(t, ast.Starred):
+                        t = t.value
+                    if isinstance(t, ast.Attribute) and isinstance(
+                            t.value, ast.Name) and t.value.id == 'self':
+                        whole = isinstance(s, ast.Assign) and len(
+                            flat) == 1
+                        local_stores.setdefault(t.attr, []).append(
+                            (s, s.value if whole else None))
+                        stores.setdefault(t.attr, []).append((f, s))
+            for a, lst in local_stores.items():
+                for s, v in lst:
+                    # self.A = X.m  where some self.B = X in this function
+                    if isinstance(v, ast.Attribute) and isinstance(
+                            v.value, ast.Name):
+                        for bname, blst in local_stores.items():
+                            for s2, v2 in blst:
+                                if isinstance(v2, ast.Name) and \
+                                        v2.id == v.value.id and bname != a:
+                                    pairs[(bname, a, v.attr)] = f
+        called = {c.func.attr for f in cls.methods.values()
+                  for c in walk_local(f.node) if isinstance(c, ast.Call) and
+                  isinstance(c.func, ast.Attribute) and isinstance(
+                      c.func.value, ast.Name) and c.func.value.id == 'self'}
+        for (holder, cache, meth), where in sorted(pairs.items()):
+            if cache not in called:
+                continue        # a copied value, not a bound method
+            n += 1
+            R.instance('%s.%s caches %s.%s (bound in %s)' % (
+                cls.name, cache, holder, meth, where.name))
+            for f, s in stores.get(holder, []):
+                ok = False
+                for f2, s2 in stores.get(cache, []):
+                    if f2 is not f:
+                        continue
+                    v2 = s2.value if isinstance(s2, ast.Assign) else None
+                    if isinstance(v2, ast.Attribute) and v2.attr == meth:
+                        base = v2.value
+                        sv = s.value if isinstance(s, ast.Assign) and len(
+                            s.targets) == 1 and not isinstance(
+                                s.targets[0], (ast.Tuple, ast.List)) else None
+                        if (sv is not None and ast.dump(base) ==
+                                ast.dump(sv)) or (
+                                dotted(base) == ('self', holder) and
+                                s2.lineno > s.lineno):
+                            ok = True
+                if not ok:
+                    R.violation(
+                        (f.module.relpath, f.qualname,
+                         ' '.join(ast.unparse(s).split())[:90], s.lineno),
+                        '%s replaces self.%s without re-binding self.%s '
+                        '(= the old value\'s .%s): lookups through the '
+                        'cached method keep answering from the replaced '
+                        'object -- store(), restore() and deleteObject() see '
+                        'no committed record: a stale write is accepted and '
+                        'the previous-revision pointer is lost' % (
+                            f.short, holder, cache, meth),
+                        key='holder replaced without its cached method')
+    R.require(n >= 1, 'no cached bound method found (FileStorage._index_get)')
